@@ -41,19 +41,31 @@ theorem C11_mro_strings : mro .SolverStrings =
     [ConcreteHandlerMixin, ConstraintFilterMixin, ConstraintDeduplicatorMixin, EagerResolutionMixin,
      FullFrontend, ConstrainedFrontend, Frontend] := by decide
 
-/-- The full statement (refinement `answers ⊑ Spec`): over every environment satisfying the named hypotheses,
-for every configuration and EVERY history of well-formed calls on a tree of branched solvers, each outcome is one
-the stateless reference `Judge` allows for the constraints the user had added to that solver at that moment. -/
-def C11_full (cls : SolverClass) : Prop :=
-  ∀ (E : Env), OracleExact E → BuildExact E → SimplifyEquiv E → CheapSound E → PickValid E →
-  ∀ (track reuse : Bool) (hist : List (Nat × Op)), (∀ io ∈ hist, io.2.Wf) →
-    ∀ x ∈ runHist E cls (World.init track reuse) [[]] hist, x.2.2 ≠ .err .giveUp → Judge x.1 x.2.1 x.2.2
--- `BuildExact` / `SimplifyEquiv` are meant over the constraints and expressions of the run; the instances proved
--- below (`C11_cacheless_refines`, `C11_solver_refines`) use the relativised forms (`Reg`, `SimpOn`, `BuildOn`, `PickOk` —
--- `PickValid` as stated asks a duplicate-free choice from lists WITH duplicates and is unsatisfiable), and
--- `C11_hypotheses_consistent` / `C11_solver_hypotheses_consistent` show those are jointly satisfiable.
--- NOT proved of `C11_full`: the classes other than SolverCacheless, SolverStrings, Solver and SolverCompositeChild; `track=True`; `reuse_z3_solver`; the call
--- `unsat_core`; for SolverCacheless / SolverStrings also `batch_eval` and pickling inside a history (in scope for `Solver`).
+/-- The full statement (refinement `answers ⊑ Spec`) for the three classes of the property: over every environment
+satisfying the named hypotheses (`SolverHyps`: `Reg`, `OracleExact`, `SimpOn`, `SimpVars`, `CheapSound`, `PickOk`, `ExpReg`,
+`EvalComplete`, `TrivOk`, `BuildOn` — all relative to the registries `R` / `RE` of the constraints and expressions of the run;
+the absolute forms `BuildExact`, `SimplifyEquiv`, `NoGiveUp` of Basic.lean are inconsistent with `OracleExact` and `PickValid`
+is unsatisfiable by itself, which would make the statement vacuous), for EVERY configuration (`track`, `reuse_z3_solver`) and
+every history of calls in scope on a tree of branched solvers, each outcome is one the stateless reference `Judge` allows for
+the constraints the user had added to that solver at that moment, or the give-up error after the backend did give up. -/
+def C11_full : Prop :=
+  ∀ cls ∈ [SolverClass.Solver, SolverClass.SolverCacheless, SolverClass.SolverStrings],
+  ∀ (E : Env) (R : Con → Prop) (RE : Exp → Prop), SolverHyps R RE E →
+  ∀ (track reuse : Bool) (hist : List (Nat × Op)), HistOkS R RE 1 hist →
+    ∀ x ∈ runHist E cls (World.init track reuse) [[]] hist, JudgeOrGiveUp E x.1 x.2.1 x.2.2
+
+/-- what is proved of `C11_full`: the caching class `Solver`, untracked, `reuse_z3_solver` off, every history in scope
+(`C11_solver_refines_or_gives_up`).  MISSING: `track = true` and `reuse = true` (the invariant `CoreInv` of `_get_solver` is
+stated for untracked frontends that own or share-after-finalize their Z3 object); for SolverCacheless and SolverStrings the
+calls `batch_eval` and pickle round trips inside a history (`C11_cacheless_refines`, `C11_strings_refines` cover the other
+calls); `unsat_core` is outside `Judge`. -/
+theorem C11_full_partial {E : Env} {R : Con → Prop} {RE : Exp → Prop} (H : SolverHyps R RE E) (hist : List (Nat × Op))
+    (hok : HistOkS R RE 1 hist) :
+    ∀ x ∈ runHist E .Solver (World.init false false) [[]] hist, JudgeOrGiveUp E x.1 x.2.1 x.2.2 :=
+  sol_hist_giveup H hist _ _ (tinvS_init R RE E) hok
+
+example : ∀ x ∈ runHist cEnv .Solver (World.init false false) [[]] cHist, JudgeOrGiveUp cEnv x.1 x.2.1 x.2.2 :=
+  C11_full_partial cHyps cHist cHist_ok
 
 /-- `_satisfiable` over an exact oracle is exact and leaves the solver object's frames alone -/
 theorem C11_satisfiable_exact {E : Env} (hE : OracleExact E) {hook : PModel → M Unit} {A : List ZCon}
